@@ -437,6 +437,9 @@ func c07Exec(plan *Plan, st *Stats) *Violation {
 					// but a refusal must leave everything as it was
 					bogus = &ysgo.Snapshot{CurrentNode: snaps[e.K].CurrentNode, Variables: map[string]variable.Value{"zz": *variable.NewNumber(99), "hollow": {}}, VisitedNodes: map[string]int{"zz": 7}}
 				}
+				if hollow && st != nil {
+					st.probe("restore_of_a_hollow_snapshot_attempted")
+				}
 				err, pv := safeRestore(T, bogus)
 				if hollow && (pv != nil || err == nil) {
 					continue
